@@ -3,6 +3,7 @@ import theta_rules as T
 import chains
 import hll_rules
 import generic_lints
+import predicates
 import c19_rules
 import triggers
 
@@ -19,6 +20,7 @@ def run(facts, tier):
         ("rebuild precondition", T.rebuild_precondition, 2, "rebuild() is only called with strictly more than nominal-size entries"),
         ("builder/reset", T.builder_reset, 2, "reset() restores theta through the builder's helper; re-reads follow member resets"),
         ("reset completeness", lambda fa: c19_rules.reset_completeness(fa, ['update_theta_sketch_alloc','theta_update_sketch_base']), 6, "every field a mutator modifies is re-initialised by reset() (a reused object equals a fresh one); reviewed exceptions are configuration fields"),
+        ("emptiness predicate support", lambda fa: predicates.obligations(fa, ['update_theta_sketch_alloc','compact_theta_sketch_alloc']), 2, "the emptiness predicate still consults every field it depended on in the reviewed tree (spec/predicates.json)"),
         ("tautologies", lambda fa: generic_lints.tautologies(fa, ('theta/',)), 2, "no comparison / assignment / min-max with two identical operands, no if-else with identical arms"),
         ("duplicate operands", lambda fa: generic_lints.duplicate_conjuncts(fa, ('theta/',)), 2, "no logical chain tests the same operand twice (copy-paste of the wrong peer)"),
         ("forwarding peers", lambda fa: generic_lints.forwarding_peers(fa, ('theta/',)), 8, "one-statement typed overloads forward to an overload of their own name, never to the head of a sibling family (wrong peer)"),
